@@ -92,6 +92,48 @@ class GetProbe(Spec):
         return STensor.sym(cx, f"state_{name}_after_{len(cx.ghost.get('sets', []))}_sets", (2,), "real")
 
 
+class UnsetIndividuals(Spec):
+    """State.put_individual_latent_variables(None): every individual latent variable of the graph is unset through the state's own
+    assignment (State.__setitem__, which resets the dependents and the fork: contract of C01) -- exactly once each, nothing else is
+    assigned, and the private value table is not written behind its back."""
+    target = "leaspy.variables.state:State.put_individual_latent_variables"
+
+    def configs(self):
+        return [dict(kind=k_) for k_ in list(D.KINDS) + list(D.EXTRA_KINDS)]
+
+    def setup(self, cx, cfg):
+        import types
+        from leaspy.variables.state import State
+        from leaspy.variables.specs import IndividualLatentVariable
+        kind, kw = D.KINDS.get(cfg["kind"]) or D.EXTRA_KINDS[cfg["kind"]]
+        m, specs = D.model_specs(kind, **kw)
+        inds = {n_: specs[n_] for n_ in specs if isinstance(specs[n_], IndividualLatentVariable)}
+        from pyvc.core import Symbolic
+
+        class DagStub(Symbolic):
+            def _getattr(self_, it, name, node=None):
+                if name == "sorted_variables_by_type":
+                    return {IndividualLatentVariable: inds}
+                raise OutOfSubset(f"dag.{name}")
+
+            def _getitem(self_, it, k, node=None):
+                return specs[k]
+        dag = DagStub()
+        values = {n_: STensor.sym(cx, "stored_" + n_, (D.n, 1)) for n_ in inds}
+        values["model"] = STensor.sym(cx, "stored_model", (D.n, 2, 3))          # a cached derived value
+        s = SymObj(State, dict(dag=dag, _values=values, _last_fork=None))
+        return dict(args=(s, None), self=s, inds=inds, values=values, snapshot=dict(values))
+
+    def frame(self, cx, st):
+        return []          # nothing of the state object is written directly: everything goes through __setitem__ (probe)
+
+    def post(self, cx, st, out):
+        sets = cx.ghost.get("sets", [])
+        return [("every individual latent variable is unset through State.__setitem__, exactly once each, and nothing else is assigned",
+                 z3.BoolVal(sorted(a[1] for a in sets) == sorted(st["inds"]) and all(a[0] is st["self"] and a[2] is None for a in sets))),
+                ("the private value table is not written directly", z3.BoolVal(st["values"] == st["snapshot"] and st["self"].f.get("_values") is st["values"]))]
+
+
 class PutPopulation(Spec):
     """State.put_population_latent_variables(method): every population latent variable of the graph is assigned exactly once,
     in graph order, and nothing else is assigned; with method None the value is None, otherwise it is that variable's
